@@ -148,6 +148,8 @@ def check(rep, tier, seed):
 
         # ---------------------------------------------------------------- (ii) read loops on real files
         sizes = [0, 1, 15, 4095, MiB - 1, MiB, MiB + 1, 2 * MiB, 2 * MiB + 17]
+        # lengths at which hash primitives switch between internal code paths (xxh3: 16 / 128 / 240, block sizes 64 / 128) and a few in between
+        sizes += [3, 8, 16, 17, 63, 64, 65, 127, 128, 129, 200, 240, 241, 256, 1000] + [rng.randrange(130, 241) for _ in range(2)] + [rng.randrange(1, 4096) for _ in range(3)]
         if tier == "thorough":
             sizes += [3 * MiB + 17, 4 * MiB] + [rng.randrange(1, 3 * MiB) for _ in range(6)]
         folder = scratch.new("media")
@@ -163,6 +165,8 @@ def check(rep, tier, seed):
             subsets = [list(c) for k in range(1, 8) for c in itertools.combinations(ALL7, k)] + subsets[-3:]
         else:
             subsets += [rng.sample(ALL7, rng.randrange(2, 7)) for _ in range(10)]
+            # pairs: a format may borrow from another one that shares the pass
+            subsets = subsets[:9] + [list(c) for c in itertools.combinations(["xxh32", "xxh64", "xxh3", "xxh128"], 2)] + [["md5", "sha1"], ["c4", "md5"], ["xxh3", "c4"]] + subsets[9:]
         orig_new = H.new_hasher_for_hash_type
         for p, data in files:
             n = len(data)
